@@ -312,6 +312,8 @@ func RunC01(d *Driver) *Report {
 	// the Pratt parser model against the real parser
 	npratt := c01Pratt(r, d, rng, 2*n)
 	r.Rule += fmt.Sprintf("; Pratt model: %d accepted expression texts with parentheses placed at random (all binary and unary operators, groups, indexing; depth <= 6), the real parser's tree against the tree Model/Pratt.lean returns for the same token kinds", npratt)
+	nprattw := c01PrattW(r, d, rng, 2*n)
+	r.Rule += fmt.Sprintf("; Pratt model with whitespace: %d random layouts of such texts after `x :=`, as arguments of print and as array elements — accepted or rejected alike, and the trees of all arguments / elements equal to what Model/PrattW.lean returns for the flagged tokens", nprattw)
 	// whitespace separates the arguments of a call and the elements of an array literal (spec.md,
 	// Whitespace, rules 4 and 5), whatever expression form stands before the space: metamorphic oracle —
 	// `print P N` prints what `print P` and `print N` print, `[P N]` has two elements
@@ -696,10 +698,12 @@ func AnyEqualityPrograms() []string {
 }
 
 func TypeMatrixPrograms() []string {
-	descs := []string{"n", "s", "b", "an", "as", "aa", "mn", "ma", "y", "[]", "{}", "[1]", "[\"a\"]", "{a:1}", "[[]]", "[{}]", "{a:[]}", "{a:{}}", "[[1]]", "[1 \"a\"]", "1", "\"a\"", "true"}
+	// (p), (q 1): calls of functions WITHOUT a result used where a value is expected — the parser must
+	// reject them everywhere; whatever it accepts is run like every other cell
+	descs := []string{"n", "s", "b", "an", "as", "aa", "mn", "ma", "y", "[]", "{}", "[1]", "[\"a\"]", "{a:1}", "[[]]", "[{}]", "{a:[]}", "{a:{}}", "[[1]]", "[1 \"a\"]", "1", "\"a\"", "true", "(p)", "(q 1)"}
 	ops := []string{"+", "-", "*", "/", "%", "<", "<=", "==", "!=", "and", "or"}
-	pre := "n := 1\ns := \"s\"\nb := true\nan := [1 2]\nas := [\"a\"]\naa:[]any\nmn := {a:1}\nma:{}any\ny:any\n"
-	use := "print n s b an as aa mn ma y\n"
+	pre := "n := 1\ns := \"s\"\nb := true\nan := [1 2]\nas := [\"a\"]\naa:[]any\nmn := {a:1}\nma:{}any\ny:any\nfunc p\n    print \"p\"\nend\nfunc q v:num\n    print \"q\" v\nend\n"
+	use := "print n s b an as aa mn ma y\np\nq 1\n"
 	var out []string
 	for _, l := range descs {
 		for _, r := range descs {
@@ -712,6 +716,29 @@ func TypeMatrixPrograms() []string {
 			pre+"x := "+l+".a\nprint x\n"+use, pre+"x := "+l+".(num)\nprint x\n"+use, pre+"x := "+l+".([]num)\nprint x\n"+use,
 			pre+"if "+l+"\n    print 1\nend\n"+use, pre+"for e := range "+l+"\n    print e (typeof e)\nend\n"+use,
 			pre+"x := "+l+"\nprint x (typeof x)\n"+use)
+		// every position that takes a value: element (first, later, nested), map value, argument, index,
+		// slice bound, assignment to a variable / element / field of type any, return value, group
+		out = append(out,
+			pre+"x := ["+l+"]\nprint x (typeof x) (len x)\n"+use, pre+"x := [1 "+l+"]\nprint x (typeof x)\n"+use,
+			pre+"x := [["+l+"]]\nprint x (typeof x)\n"+use, pre+"x := {a:"+l+"}\nprint x (typeof x)\n"+use,
+			pre+"x := {a:1 b:"+l+"}\nprint x (typeof x)\n"+use, pre+"print "+l+"\n"+use, pre+"print 1 "+l+" 2\n"+use,
+			pre+"print ["+l+"] {k:"+l+"}\n"+use, pre+"print (len ["+l+"])\n"+use, pre+"print (sprint "+l+")\n"+use,
+			pre+"x := an["+l+"]\nprint x\n"+use, pre+"x := an["+l+":]\nprint x\n"+use, pre+"x := an[:"+l+"]\nprint x\n"+use,
+			pre+"y = "+l+"\n"+use,
+			pre+"aa = ["+l+"]\n"+use, pre+"ma = {k:"+l+"}\n"+use,
+			pre+"func g:any\n    return "+l+"\nend\nprint (g)\n"+use, pre+"func g:[]any\n    return ["+l+"]\nend\nprint (g)\n"+use,
+			pre+"x := ("+l+")\nprint x\n"+use, pre+"x := [("+l+")]\nprint x\n"+use,
+			pre+"func h a:any...\n    print a\nend\nh "+l+" ["+l+"]\n"+use,
+			pre+"while "+l+"\n    break\nend\n"+use, pre+"for i := range "+l+" 3\n    print i\nend\n"+use)
+		// storing into an element / a field of an any container; a container stored into ITSELF is a cyclic
+		// value, whose traversal overflows the host stack (known finding cyclic-value-overflows-host-stack,
+		// witnessed in a process of its own by corpus/C02/cyclic-value-print.evy)
+		if l != "aa" {
+			out = append(out, pre+"aa = aa + [y]\naa[0] = "+l+"\n"+use)
+		}
+		if l != "ma" {
+			out = append(out, pre+"ma.k = "+l+"\n"+use)
+		}
 	}
 	return out
 }
